@@ -473,6 +473,10 @@ ABSENT_IMPLS = [
      "#[derive(derive_more::From)] pub enum E { #[from(u8)] A(u32), B(u16) } pub fn f() -> E { E::from(1u16) }"),
     ("unannotated_after_forward", "no From for an un-annotated variant once a variant carries #[from(forward)]",
      "#[derive(derive_more::From)] pub enum E { #[from(forward)] A(u32), B(i16) } pub fn f() -> E { E::from(1i16) }"),
+    ("unannotated_after_annotated_unit_variant", "an annotated FIELD-LESS variant switches the enum to opt-in as well",
+     "#[derive(derive_more::From)] pub enum E { #[from] Nothing, Number(i32) } pub fn f() -> E { E::from(1i32) }"),
+    ("unannotated_after_annotated_empty_tuple_variant", "an annotated empty tuple variant switches the enum to opt-in as well",
+     "#[derive(derive_more::From)] pub enum E { Number(i32), #[from] Nothing(), Pair { a: u8, b: u8 } } pub fn f() -> E { E::from((1u8, 2u8)) }"),
     ("skipped_variant", "no From for a #[from(skip)] variant",
      "#[derive(derive_more::From)] pub enum E { A(u8), #[from(skip)] B(u16) } pub fn f() -> E { E::from(1u16) }"),
     ("ignored_variant", "no From for a #[from(ignore)] variant",
